@@ -174,6 +174,12 @@ def run_elements(shard):
                     except Exception as e:
                         bad('matcher encoding of isotope=%s charge=%d radical=%s raised %s' % (iso, ch, rad, type(e).__name__))
                         continue
+                    # element words, from the layout comment: long I = 5 bond bits | 2 ring bits | H..Ba (56 bits, H highest) | transfer bit;
+                    # long II = La..Mc (59 bits, La highest) | one bit shared by Lv, Ts, Og | 4 hybridisation bits (sp3 lowest)
+                    exp_v1 = (1 << (57 - z)) if z <= 56 else 1
+                    exp_v2 = (1 << 0) | ((1 << (120 - min(z, 116))) if z > 56 else 0)
+                    if v1 != exp_v1 or v2 != exp_v2:
+                        bad('matcher element words of the atom are not the one-bit-per-element layout of the comment', got=[hex(v1), hex(v2)], expected=[hex(exp_v1), hex(exp_v2)])
                     isob, radb, chb, hb, nb, het = decode_v3(v3)
                     exp_iso = [63] if iso is None else [iso - ref + 54]
                     if iso is not None and not (46 <= iso - ref + 54 <= 62):
